@@ -35,7 +35,7 @@ Judge(c) ==
        IN IF ~InScope(src) THEN "ok:out-of-scope"
           ELSE LET S(p) == StackAt(src, MemIn, p)
                    Decided(p) == \A k \in 1..Len(src) : Mem(src[k], p) # "band"
-                                   /\ \A q \in Nbrs(p) : Mem(src[k], q) = Mem(src[k], p)
+                                   /\ \A q \in NbrsR(p, BandR(c.doc.view)) : Mem(src[k], q) = Mem(src[k], p)
                    bad == { p \in Samples(c.doc.vb) : OutStack(out, p) # S(p) /\ Decided(p) }
                    nS == Cardinality({k \in 1..Len(src) : src[k].kind = "stroke"})
                IN IF bad # {} THEN LET p == CHOOSE p \in bad : TRUE
